@@ -24,6 +24,9 @@ type PropSpec struct {
 	AutoKinds bool
 	InvariantMethods bool // also verify every method carrying a type invariant
 	Prepare func(w *World) []string // adds generated contracts, returns extra roots
+	Secrets []string // information-flow mode: secret byte slices of the root receiver
+	SecretRecv string // receiver type the secrets belong to
+	ForceInline []string // callees verified in place although they have contracts
 	Note      string
 	Extra     func(w *World, run *PropRun)
 }
@@ -119,6 +122,16 @@ func runCheck(args []string) int {
 	t0 := time.Now()
 	w := loadWorld()
 	w.prop = id
+	w.secrets = spec.Secrets
+	w.secretRecv = spec.SecretRecv
+	w.taintRoots = map[string]bool{}
+	for _, r := range spec.Roots {
+		w.taintRoots[r] = true
+	}
+	w.forceInline = map[string]bool{}
+	for _, f := range spec.ForceInline {
+		w.forceInline[f] = true
+	}
 	run := &PropRun{Spec: spec, Tier: tier, Trusted: map[string]bool{}, Inlined: map[string]bool{}, Used: map[string]bool{}}
 	timeout := 10000
 	if tier == "thorough" {
@@ -430,6 +443,9 @@ func (fr *Frame) checkHeapFrame(c *Contract, scope map[string]*Val, name string)
 	}
 	sort.Strings(keys)
 	for _, k := range keys {
+		if k == "G_taint" {
+			continue // ghost information-flow map, not program memory
+		}
 		lf := leafByKey[k]
 		a := vc.fresh("fr_a", "Int")
 		conds := []string{le("1", a), lt(a, fr.entry.wm)}
